@@ -1,0 +1,82 @@
+//! Verification hook H4 (guard: cfg(any(kani, ax_verif))). Not compiled in any ordinary build.
+//!
+//! Source of the values the emulator otherwise draws from `rand::thread_rng()`. The RNG's
+//! contract is "an arbitrary value": under the model checker that is `kani::any()`, in a
+//! native replay build (`--cfg ax_verif`) the values come from a recorded playback queue
+//! (falling back to the real RNG when no playback is active). See /verif/DESIGN.md section 3.
+
+#[cfg(kani)]
+pub(crate) fn any<T: kani::Arbitrary>() -> T {
+    kani::any()
+}
+
+#[cfg(not(kani))]
+pub use self::native::*;
+
+#[cfg(not(kani))]
+mod native {
+    use std::cell::RefCell;
+
+    thread_local! {
+        static QUEUE: RefCell<Option<Vec<Vec<u8>>>> = RefCell::new(None);
+    }
+
+    /// Start playback: `vals` are consumed in order, one entry per drawn value.
+    pub fn playback_start(mut vals: Vec<Vec<u8>>) {
+        vals.reverse();
+        QUEUE.with(|q| *q.borrow_mut() = Some(vals));
+    }
+
+    /// Stop playback and return the number of values left over.
+    pub fn playback_stop() -> usize {
+        QUEUE.with(|q| q.borrow_mut().take().map(|v| v.len()).unwrap_or(0))
+    }
+
+    pub trait Nondet: Copy {
+        fn from_le(bytes: &[u8]) -> Self;
+        fn random() -> Self;
+    }
+
+    macro_rules! nondet_int {
+        ($($t:ty),*) => {$(
+            impl Nondet for $t {
+                fn from_le(bytes: &[u8]) -> Self {
+                    let mut b = [0u8; std::mem::size_of::<$t>()];
+                    b.copy_from_slice(bytes);
+                    <$t>::from_le_bytes(b)
+                }
+                fn random() -> Self {
+                    rand::Rng::gen::<$t>(&mut rand::thread_rng())
+                }
+            }
+        )*};
+    }
+    nondet_int!(u8, u16, u32, u64, u128, usize, i8, i16, i32, i64, i128);
+
+    impl Nondet for bool {
+        fn from_le(bytes: &[u8]) -> Self {
+            bytes[0] & 1 != 0
+        }
+        fn random() -> Self {
+            rand::Rng::gen::<bool>(&mut rand::thread_rng())
+        }
+    }
+
+    pub fn any<T: Nondet>() -> T {
+        let next = QUEUE.with(|q| match q.borrow_mut().as_mut() {
+            Some(v) => Some(v.pop().expect("verification playback: not enough recorded values")),
+            None => None,
+        });
+        match next {
+            Some(bytes) => {
+                assert_eq!(
+                    bytes.len(),
+                    std::mem::size_of::<T>(),
+                    "verification playback: recorded value has the wrong size"
+                );
+                T::from_le(&bytes)
+            }
+            None => T::random(),
+        }
+    }
+}
